@@ -1,7 +1,7 @@
 (* C09 — decode_packet accepts exactly the well-formed packets, reports type / payload offset / payload length,
    and rejects the others with a truthful error.  Property theorems only. *)
 Require Import Base Crc Bitfield Headers Encode Decode Process Ops Spec Judge.
-Require Import Hist DecodeFacts StepsSimple DecodeChar.
+Require Import Hist DecodeFacts StepsSimple DecodeChar Extra.
 Open Scope N_scope.
 
 (* (1) as the correspondence oracle states it: in every history, every decode_packet observation of the model
@@ -26,6 +26,12 @@ Theorem C09_decoder_panics_iff : forall p, bytes_ok p ->
   (is_panic (decode_packet p) = true <-> decode_panic_class p <> 0).
 Proof. exact decode_panics_iff. Qed.
 
+(* (5) context independence, stated outright: what decode_packet observes does not depend on the context it is
+   called on (nor on the overflow mode) *)
+Theorem C09_context_independent : forall ovf c1 c2 p,
+  snd (step ovf c1 (ODecode p)) = snd (step ovf c2 (ODecode p)).
+Proof. exact decode_context_independent. Qed.
+
 (* non-vacuity: a valid Set Endpoint ID request is in the claim, well-formed, accepted with the payload at
    offset 11 and of length 2; flipping its PEC makes it ill-formed and rejected with InvalidPEC *)
 Example C09_nonvacuous :
@@ -43,3 +49,4 @@ Print Assumptions C09_oracle_holds_on_model.
 Print Assumptions C09_decoder_exact.
 Print Assumptions C09_accept_iff_wellformed.
 Print Assumptions C09_decoder_panics_iff.
+Print Assumptions C09_context_independent.
